@@ -103,6 +103,10 @@ pub fn check7<Y>(st: &mut St<Y>, m: &Model, c: &[u8; 7], expect: u16, all: bool)
 
 /// Rank `prev` and then `cur` through each entry point in turn; `cur` must get its own value.
 fn twin_probe7<Y>(st: &mut St<Y>, m: &Model, prev: &[u8; 7], cur: &[u8; 7], expect: u16) {
+    history_probe7(st, m, prev, cur, expect, "a suit-swapped twin")
+}
+
+fn history_probe7<Y>(st: &mut St<Y>, m: &Model, prev: &[u8; 7], cur: &[u8; 7], expect: u16, what: &str) {
     let (p, c) = (Seven::from(words_of(prev)), Seven::from(words_of(cur)));
     st.flight("Seven ranking after a twin", &words_of(cur));
     let got = [
@@ -120,7 +124,7 @@ fn twin_probe7<Y>(st: &mut St<Y>, m: &Model, prev: &[u8; 7], cur: &[u8; 7], expe
             both.extend_from_slice(cur);
             st.rep.violation(
                 "the value does not depend on which hand was ranked before",
-                &format!("{} after ranking a suit-swapped twin", E[k]),
+                &format!("{} after ranking {}", E[k], what),
                 Input::Idx(both),
                 describe(m, expect),
                 format!("{} right after ranking {}", describe(m, got[k]), model::hand_name(prev)),
@@ -130,6 +134,10 @@ fn twin_probe7<Y>(st: &mut St<Y>, m: &Model, prev: &[u8; 7], cur: &[u8; 7], expe
 }
 
 fn twin_probe6<Y>(st: &mut St<Y>, m: &Model, prev: &[u8; 6], cur: &[u8; 6], expect: u16) {
+    history_probe6(st, m, prev, cur, expect, "a suit-swapped twin")
+}
+
+fn history_probe6<Y>(st: &mut St<Y>, m: &Model, prev: &[u8; 6], cur: &[u8; 6], expect: u16, what: &str) {
     let (p, c) = (Six::from(words_of(prev)), Six::from(words_of(cur)));
     st.flight("Six ranking after a twin", &words_of(cur));
     let got = [
@@ -147,7 +155,7 @@ fn twin_probe6<Y>(st: &mut St<Y>, m: &Model, prev: &[u8; 6], cur: &[u8; 6], expe
             both.extend_from_slice(cur);
             st.rep.violation(
                 "the value does not depend on which hand was ranked before",
-                &format!("{} after ranking a suit-swapped twin", E[k]),
+                &format!("{} after ranking {}", E[k], what),
                 Input::Idx(both),
                 describe(m, expect),
                 format!("{} right after ranking {}", describe(m, got[k]), model::hand_name(prev)),
@@ -203,7 +211,13 @@ pub fn run(ctx: &Ctx) -> Rep {
     let rows_rate_7 = ctx.pick(1, 64, 8);
 
     // ---- A: all six-card subsets -------------------------------------------
+    // the checked leg of the quick tier works on a seeded quarter of the hands (ranking has no arithmetic that
+    // differs between the profiles today; the leg is there to catch a debug assertion or an overflow that a change adds)
+    let leg_div: u64 = if ctx.leg == "checked" && !ctx.thorough() && !ctx.smoke() { 4 } else { 1 };
     let st6 = par_subsets::<6, X, _, _>(ctx, unit_stride, mk, |st, c, u| {
+        if !selected(c, seed, 0xC4EC, leg_div) {
+            return;
+        }
         let expect = m.ord_best(c);
         st.rep.distinct += 1;
         st.x.cat6[model::key_cat(m.key_of_ordinal[expect as usize]) as usize] += 1;
@@ -257,6 +271,9 @@ pub fn run(ctx: &Ctx) -> Rep {
 
     // ---- B: all seven-card subsets -----------------------------------------
     let st7 = par_subsets::<7, X, _, _>(ctx, unit_stride, mk, |st, c, _u| {
+        if !selected(c, seed, 0xC4EC, leg_div) {
+            return;
+        }
         let expect = m.ord_best(c);
         st.rep.distinct += 1;
         st.x.cat7[model::key_cat(m.key_of_ordinal[expect as usize]) as usize] += 1;
@@ -419,6 +436,69 @@ pub fn run(ctx: &Ctx) -> Rep {
     rd.distinct = 0;
     rep.merge(rd);
 
+    // ---- E: hidden-state trace (only when the built crate owns writable statics) -----------------------
+    // Single-threaded: every six- and seven-card hand is ranked through each entry point that leaves
+    // something behind in the crate's statics, the cell it leaves is recorded, and hands that leave the
+    // same key behind with different values become two-call histories that are actually executed and
+    // compared with the oracle (the state trace only proposes candidates; see src/statewatch.rs).
+    if let (Some(w), false) = (&ctx.statics, ctx.smoke()) {
+        use crate::statewatch::Trace;
+        let mut st = St { rep: Rep::new(), x: mk(), cur: [0; 8], cur_len: 0, cur_what: "" };
+        let mut scratch = (Vec::new(), Vec::new());
+        for n in [6usize, 7] {
+            for e in 0..4usize {
+                let rank = |c: &[u8]| -> u16 {
+                    let wd: Vec<u32> = c.iter().map(|&i| model::word(i)).collect();
+                    if c.len() == 6 {
+                        let h = Six::from([wd[0], wd[1], wd[2], wd[3], wd[4], wd[5]]);
+                        match e { 0 => h.hand_rank_value_and_hand().0, 1 => h.hand_rank_value(), 2 => h.hand_rank().value, _ => h.hand_rank_value_validated() }
+                    } else {
+                        let h = Seven::from([wd[0], wd[1], wd[2], wd[3], wd[4], wd[5], wd[6]]);
+                        match e { 0 => h.hand_rank_value_and_hand().0, 1 => h.hand_rank_value(), 2 => h.hand_rank().value, _ => h.hand_rank_value_validated() }
+                    }
+                };
+                // does this entry point leave state at all? (a few hundred hands)
+                let mut probe = Trace::new();
+                let mut k = 0u32;
+                if n == 6 {
+                    drive::for_each_subset::<6>(|c, id| { if id % 200_003 == 0 { probe.observe(w, &mut scratch, id, 0, || rank(c)); k += 1; } });
+                } else {
+                    drive::for_each_subset::<7>(|c, id| { if id % 1_300_021 == 0 { probe.observe(w, &mut scratch, id, 0, || rank(c)); k += 1; } });
+                }
+                let ename = if n == 6 { E6[e] } else { E7[e] };
+                st.rep.add(&format!("state_trace.{}.calls_that_changed_crate_statics(of {} probed)", ename, k), probe.recs.len() as u64);
+                if probe.recs.is_empty() {
+                    continue;
+                }
+                let mut trace = Trace::new();
+                if n == 6 {
+                    drive::for_each_subset::<6>(|c, id| { let v = m.ord_best(c); trace.observe(w, &mut scratch, id, v, || rank(c)); });
+                } else {
+                    drive::for_each_subset::<7>(|c, id| { let v = m.ord_best(c); trace.observe(w, &mut scratch, id, v, || rank(c)); });
+                }
+                st.rep.evaluations += trace.recs.len() as u64;
+                let cands = trace.collision_candidates(4096);
+                st.rep.add(&format!("state_trace.{}.cells_recorded", ename), trace.recs.len() as u64);
+                st.rep.add(&format!("state_trace.{}.collision_candidates", ename), cands.len() as u64);
+                drop(trace);
+                for (a, b) in cands {
+                    for (p, c) in [(a, b), (b, a)] {
+                        if n == 6 {
+                            let (ph, ch) = (drive::nth_subset::<6>(p as u64), drive::nth_subset::<6>(c as u64));
+                            history_probe6(&mut st, &m, &ph, &ch, m.ord_best(&ch), "a hand that left the same key in the crate's static state");
+                        } else {
+                            let (ph, ch) = (drive::nth_subset::<7>(p as u64), drive::nth_subset::<7>(c as u64));
+                            history_probe7(&mut st, &m, &ph, &ch, m.ord_best(&ch), "a hand that left the same key in the crate's static state");
+                        }
+                    }
+                }
+            }
+        }
+        st.rep.note("crate_statics_watched", w.names.join(", "));
+        st.rep.distinct = 0;
+        rep.merge(st.rep);
+    }
+
     let mut acc = mk();
     for x in x6.into_iter().chain(x7).chain(xc).chain(xd) {
         for k in 0..9 {
@@ -450,11 +530,11 @@ pub fn run(ctx: &Ctx) -> Rep {
     rep.note("six_rows_decisive_counts", format!("{:?}", acc.decisive6));
     rep.note("seven_rows_decisive_counts", format!("{:?}", acc.decisive7));
     if !ctx.smoke() {
-        rep.floor("six_card_subsets", n6, 20_358_520);
-        rep.floor("seven_card_subsets", n7, 133_784_560);
+        rep.floor("six_card_subsets", n6, if leg_div == 1 { 20_358_520 } else { 20_358_520 / leg_div / 2 });
+        rep.floor("seven_card_subsets", n7, if leg_div == 1 { 133_784_560 } else { 133_784_560 / leg_div / 2 });
         rep.floor("every six-slot row decisive", *acc.decisive6.iter().min().unwrap(), 1000);
         rep.floor("every seven-slot row decisive", *acc.decisive7.iter().min().unwrap(), 1000);
-        rep.exhaustive = Some(true);
+        rep.exhaustive = Some(leg_div == 1);
     }
     rep.rule = format!(
         "every 6-subset and every 7-subset of the deck in canonical slot order (enumerated once each = distinct) through hand_rank_value_and_hand; \
